@@ -55,15 +55,15 @@ SamplesOK == Live =>
              n == ShotsWith(x)
              mine == {j \in 1..Len(R.samples) : R.samples[j].letter = x}
          IN /\ n <= CountIn(x, R.shots + R.inst - 1)
-            /\ IF x.l \in TlsShare
+            /\ IF x.l \in ShareLetters
                THEN \* the letter hits a share of the handshakes: every request of the run either fails like the letter
                     \* says or is answered with a plain 200; a shot ends at its first failed step
-                    LET ok == Outcome(R.gun, StatusLetter(200), R.posts)
+                    LET ok == Outcome(R.gun, OkLetter(R.gun), R.posts)
                         fits(j, k) == R.samples[j].step = StepName(k, 2) /\
                                       (Matches(R.samples[j], exp[1]) \/ Matches(R.samples[j], ok[k]))
                     IN /\ \A j \in mine : \E k \in 1..Len(ok) : fits(j, k)
                        /\ Len(ok) = 2 => Cardinality({j \in mine : R.samples[j].step = "b"})
-                            = Cardinality({j \in mine : R.samples[j].step = First /\ ~R.samples[j].err})
+                            = Cardinality({j \in mine : R.samples[j].step = First /\ Matches(R.samples[j], ok[1])})
                ELSE /\ Cardinality(mine) = n * Len(exp)
                     /\ \A k \in 1..Len(exp) :
                          Cardinality({j \in mine : R.samples[j].step = StepName(k, Len(exp)) /\ Matches(R.samples[j], exp[k])}) = n
